@@ -15,7 +15,6 @@ import (
 	"go/token"
 	"go/types"
 	"reflect"
-	"unsafe"
 
 	"golang.org/x/tools/go/ssa"
 )
@@ -49,20 +48,6 @@ func makeNamedType(name string, underlying types.Type) *types.Named {
 	return types.NewNamed(obj, underlying, nil)
 }
 
-func makeReflectValue(t types.Type, v value) value {
-	return structure{rtype{t}, v}
-}
-
-// Given a reflect.Value, returns its rtype.
-func rV2T(v value) rtype {
-	return v.(structure)[0].(rtype)
-}
-
-// Given a reflect.Value, returns the underlying interpreter value.
-func rV2V(v value) value {
-	return v.(structure)[1]
-}
-
 // makeReflectType boxes up an rtype in a reflect.Type interface.
 func makeReflectType(rt rtype) value {
 	return iface{rtypeType, rt}
@@ -85,21 +70,6 @@ func ext۰reflect۰rtype۰Elem(fr *frame, args []value) value {
 	}).Elem()})
 }
 
-func ext۰reflect۰rtype۰Field(fr *frame, args []value) value {
-	// Signature: func (t reflect.rtype, i int) reflect.StructField
-	st := args[0].(rtype).t.Underlying().(*types.Struct)
-	i := args[1].(int)
-	f := st.Field(i)
-	return structure{
-		f.Name(),
-		f.Pkg().Path(),
-		makeReflectType(rtype{f.Type()}),
-		st.Tag(i),
-		0,         // TODO(adonovan): offset
-		[]value{}, // TODO(adonovan): indices
-		f.Anonymous(),
-	}
-}
 
 func ext۰reflect۰rtype۰In(fr *frame, args []value) value {
 	// Signature: func (t reflect.rtype, i int) int
@@ -148,12 +118,6 @@ func ext۰reflect۰rtype۰String(fr *frame, args []value) value {
 	return args[0].(rtype).t.String()
 }
 
-func ext۰reflect۰New(fr *frame, args []value) value {
-	// Signature: func (t reflect.Type) reflect.Value
-	t := args[0].(iface).v.(rtype).t
-	alloc := zero(t)
-	return makeReflectValue(types.NewPointer(t), &alloc)
-}
 
 func ext۰reflect۰SliceOf(fr *frame, args []value) value {
 	// Signature: func (t reflect.rtype) Type
@@ -165,17 +129,7 @@ func ext۰reflect۰TypeOf(fr *frame, args []value) value {
 	return makeReflectType(rtype{args[0].(iface).t})
 }
 
-func ext۰reflect۰ValueOf(fr *frame, args []value) value {
-	// Signature: func (interface{}) reflect.Value
-	itf := args[0].(iface)
-	return makeReflectValue(itf.t, itf.v)
-}
 
-func ext۰reflect۰Zero(fr *frame, args []value) value {
-	// Signature: func (t reflect.Type) reflect.Value
-	t := args[0].(iface).v.(rtype).t
-	return makeReflectValue(t, zero(t))
-}
 
 func reflectKind(t types.Type) reflect.Kind {
 	switch t := t.(type) {
@@ -240,252 +194,28 @@ func reflectKind(t types.Type) reflect.Kind {
 	panic(fmt.Sprint("unexpected type: ", t))
 }
 
-func ext۰reflect۰Value۰Kind(fr *frame, args []value) value {
-	// Signature: func (reflect.Value) uint
-	return uint(reflectKind(rV2T(args[0]).t))
-}
 
-func ext۰reflect۰Value۰String(fr *frame, args []value) value {
-	// Signature: func (reflect.Value) string
-	return toString(rV2V(args[0]))
-}
 
-func ext۰reflect۰Value۰Type(fr *frame, args []value) value {
-	// Signature: func (reflect.Value) reflect.Type
-	return makeReflectType(rV2T(args[0]))
-}
 
-func ext۰reflect۰Value۰Uint(fr *frame, args []value) value {
-	// Signature: func (reflect.Value) uint64
-	switch v := rV2V(args[0]).(type) {
-	case uint:
-		return uint64(v)
-	case uint8:
-		return uint64(v)
-	case uint16:
-		return uint64(v)
-	case uint32:
-		return uint64(v)
-	case uint64:
-		return uint64(v)
-	case uintptr:
-		return uint64(v)
-	}
-	panic("reflect.Value.Uint")
-}
 
-func ext۰reflect۰Value۰Len(fr *frame, args []value) value {
-	// Signature: func (reflect.Value) int
-	switch v := rV2V(args[0]).(type) {
-	case string:
-		return len(v)
-	case array:
-		return len(v)
-	case chan value:
-		return cap(v)
-	case []value:
-		return len(v)
-	case *omap:
-		return v.len()
-	default:
-		panic(fmt.Sprintf("reflect.(Value).Len(%v)", v))
-	}
-}
 
-func ext۰reflect۰Value۰MapIndex(fr *frame, args []value) value {
-	// Signature: func (reflect.Value) Value
-	tValue := rV2T(args[0]).t.Underlying().(*types.Map).Key()
-	k := rV2V(args[1])
-	switch m := rV2V(args[0]).(type) {
-	case *omap:
-		if v, ok := m.lookup(k); ok {
-			return makeReflectValue(tValue, v)
-		}
 
-	default:
-		panic(fmt.Sprintf("(reflect.Value).MapIndex(%T, %T)", m, k))
-	}
-	return makeReflectValue(nil, nil)
-}
 
-func ext۰reflect۰Value۰MapKeys(fr *frame, args []value) value {
-	// Signature: func (reflect.Value) []Value
-	var keys []value
-	tKey := rV2T(args[0]).t.Underlying().(*types.Map).Key()
-	switch v := rV2V(args[0]).(type) {
-	case *omap:
-		it := v.iter()
-		for {
-			t := it.next()
-			if !t[0].(bool) {
-				break
-			}
-			keys = append(keys, makeReflectValue(tKey, t[1]))
-		}
 
-	default:
-		panic(fmt.Sprintf("(reflect.Value).MapKeys(%T)", v))
-	}
-	return keys
-}
 
-func ext۰reflect۰Value۰NumField(fr *frame, args []value) value {
-	// Signature: func (reflect.Value) int
-	return len(rV2V(args[0]).(structure))
-}
 
-func ext۰reflect۰Value۰NumMethod(fr *frame, args []value) value {
-	// Signature: func (reflect.Value) int
-	return fr.i.prog.MethodSets.MethodSet(rV2T(args[0]).t).Len()
-}
 
-func ext۰reflect۰Value۰Pointer(fr *frame, args []value) value {
-	// Signature: func (v reflect.Value) uintptr
-	switch v := rV2V(args[0]).(type) {
-	case *value:
-		return uintptr(unsafe.Pointer(v))
-	case chan value:
-		return reflect.ValueOf(v).Pointer()
-	case []value:
-		return reflect.ValueOf(v).Pointer()
-	case *omap:
-		return uintptr(unsafe.Pointer(v))
-	case *ssa.Function:
-		return uintptr(unsafe.Pointer(v))
-	case *closure:
-		return uintptr(unsafe.Pointer(v))
-	default:
-		panic(fmt.Sprintf("reflect.(Value).Pointer(%T)", v))
-	}
-}
 
-func ext۰reflect۰Value۰Index(fr *frame, args []value) value {
-	// Signature: func (v reflect.Value, i int) Value
-	i := args[1].(int)
-	t := rV2T(args[0]).t.Underlying()
-	switch v := rV2V(args[0]).(type) {
-	case array:
-		return makeReflectValue(t.(*types.Array).Elem(), v[i])
-	case []value:
-		return makeReflectValue(t.(*types.Slice).Elem(), v[i])
-	default:
-		panic(fmt.Sprintf("reflect.(Value).Index(%T)", v))
-	}
-}
 
-func ext۰reflect۰Value۰Bool(fr *frame, args []value) value {
-	// Signature: func (reflect.Value) bool
-	return rV2V(args[0]).(bool)
-}
 
-func ext۰reflect۰Value۰CanAddr(fr *frame, args []value) value {
-	// Signature: func (v reflect.Value) bool
-	// Always false for our representation.
-	return false
-}
 
-func ext۰reflect۰Value۰CanInterface(fr *frame, args []value) value {
-	// Signature: func (v reflect.Value) bool
-	// Always true for our representation.
-	return true
-}
 
-func ext۰reflect۰Value۰Elem(fr *frame, args []value) value {
-	// Signature: func (v reflect.Value) reflect.Value
-	switch x := rV2V(args[0]).(type) {
-	case iface:
-		return makeReflectValue(x.t, x.v)
-	case *value:
-		var v value
-		if x != nil {
-			v = *x
-		}
-		return makeReflectValue(rV2T(args[0]).t.Underlying().(*types.Pointer).Elem(), v)
-	default:
-		panic(fmt.Sprintf("reflect.(Value).Elem(%T)", x))
-	}
-}
 
-func ext۰reflect۰Value۰Field(fr *frame, args []value) value {
-	// Signature: func (v reflect.Value, i int) reflect.Value
-	v := args[0]
-	i := args[1].(int)
-	return makeReflectValue(rV2T(v).t.Underlying().(*types.Struct).Field(i).Type(), rV2V(v).(structure)[i])
-}
 
-func ext۰reflect۰Value۰Float(fr *frame, args []value) value {
-	// Signature: func (reflect.Value) float64
-	switch v := rV2V(args[0]).(type) {
-	case float32:
-		return float64(v)
-	case float64:
-		return float64(v)
-	}
-	panic("reflect.Value.Float")
-}
 
-func ext۰reflect۰Value۰Interface(fr *frame, args []value) value {
-	// Signature: func (v reflect.Value) interface{}
-	return ext۰reflect۰valueInterface(fr, args)
-}
 
-func ext۰reflect۰Value۰Int(fr *frame, args []value) value {
-	// Signature: func (reflect.Value) int64
-	switch x := rV2V(args[0]).(type) {
-	case int:
-		return int64(x)
-	case int8:
-		return int64(x)
-	case int16:
-		return int64(x)
-	case int32:
-		return int64(x)
-	case int64:
-		return x
-	default:
-		panic(fmt.Sprintf("reflect.(Value).Int(%T)", x))
-	}
-}
 
-func ext۰reflect۰Value۰IsNil(fr *frame, args []value) value {
-	// Signature: func (reflect.Value) bool
-	switch x := rV2V(args[0]).(type) {
-	case *value:
-		return x == nil
-	case chan value:
-		return x == nil
-	case *omap:
-		return x == nil
-	case iface:
-		return x.t == nil
-	case []value:
-		return x == nil
-	case *ssa.Function:
-		return x == nil
-	case *ssa.Builtin:
-		return x == nil
-	case *closure:
-		return x == nil
-	default:
-		panic(fmt.Sprintf("reflect.(Value).IsNil(%T)", x))
-	}
-}
 
-func ext۰reflect۰Value۰IsValid(fr *frame, args []value) value {
-	// Signature: func (reflect.Value) bool
-	return rV2V(args[0]) != nil
-}
-
-func ext۰reflect۰Value۰Set(fr *frame, args []value) value {
-	// TODO(adonovan): implement.
-	return nil
-}
-
-func ext۰reflect۰valueInterface(fr *frame, args []value) value {
-	// Signature: func (v reflect.Value, safe bool) interface{}
-	v := args[0].(structure)
-	return iface{rV2T(v).t, rV2V(v)}
-}
 
 func ext۰reflect۰error۰Error(fr *frame, args []value) value {
 	return args[0]
@@ -537,22 +267,13 @@ func initReflect(i *interpreter) {
 		rV.SetUnderlying(types.NewStruct([]*types.Var{
 			types.NewField(token.NoPos, r.Pkg, "t", tEface, false), // a lie
 			types.NewField(token.NoPos, r.Pkg, "v", tEface, false),
+			types.NewField(token.NoPos, r.Pkg, "addr", tEface, false), // *value when addressable
 		}, nil))
 	}
 
-	i.rtypeMethods = methodSet{
-		"Bits":      newMethod(i.reflectPackage, rtypeType, "Bits"),
-		"Elem":      newMethod(i.reflectPackage, rtypeType, "Elem"),
-		"Field":     newMethod(i.reflectPackage, rtypeType, "Field"),
-		"In":        newMethod(i.reflectPackage, rtypeType, "In"),
-		"Kind":      newMethod(i.reflectPackage, rtypeType, "Kind"),
-		"NumField":  newMethod(i.reflectPackage, rtypeType, "NumField"),
-		"NumIn":     newMethod(i.reflectPackage, rtypeType, "NumIn"),
-		"NumMethod": newMethod(i.reflectPackage, rtypeType, "NumMethod"),
-		"NumOut":    newMethod(i.reflectPackage, rtypeType, "NumOut"),
-		"Out":       newMethod(i.reflectPackage, rtypeType, "Out"),
-		"Size":      newMethod(i.reflectPackage, rtypeType, "Size"),
-		"String":    newMethod(i.reflectPackage, rtypeType, "String"),
+	i.rtypeMethods = methodSet{}
+	for name := range rtypeExternals {
+		i.rtypeMethods[name] = newMethod(i.reflectPackage, rtypeType, name)
 	}
 	i.errorMethods = methodSet{
 		"Error": newMethod(i.reflectPackage, errorType, "Error"),
